@@ -206,6 +206,23 @@ static void mode_stream(Case &c) {
 		if (L.ret != LZMA_STREAM_END) violation("C03:valid-rejected", "synthesised valid .xz (features in description) rejected with %s after %llu of %zu bytes, %zu bytes out", drv::retname(L.ret), (unsigned long long)L.total_in, F.bytes.size(), L.out.size());
 		if (L.out != F.plain) { size_t d = 0; while (d < L.out.size() && d < F.plain.size() && L.out[d] == F.plain[d]) ++d; violation("C03:different-bytes", "synthesised valid .xz decodes to %zu bytes, by construction %zu, first difference at %zu", L.out.size(), F.plain.size(), d); }
 	}
+	// the threaded decoder is a decoder of the same format: Blocks with size fields go to worker threads, the others (and those above
+	// memlimit_threading) are decoded in direct mode in between - same verdict and bytes expected, whatever the slicing
+	if (c.rare(48) && !F.unsupported_check) {
+		lzma_mt mt; memset(&mt, 0, sizeof mt); mt.threads = 2 + c.u(2); mt.flags = flags; mt.timeout = 0;
+		mt.memlimit_threading = c.pick<uint64_t>({UINT64_MAX, UINT64_MAX, 2u << 20, 300000}); mt.memlimit_stop = UINT64_MAX;
+		lzma_stream m = LZMA_STREAM_INIT; m.allocator = AL();
+		lzma_ret mr = lzma_stream_decoder_mt(&m, &mt);
+		if (mr == LZMA_OK) {
+			drv::Opts om; om.out_cap = F.plain.size() + 4096; om.idle_limit = 1u << 20;
+			drv::Result M = drv::run(&m, F.bytes.data(), F.bytes.size(), sch, om); lzma_end(&m);
+			if (M.ret != LZMA_MEM_ERROR) {
+				if (M.ret != LZMA_STREAM_END) violation("C03:valid-rejected", "synthesised valid .xz rejected by lzma_stream_decoder_mt (threads %u, memlimit_threading %llu) with %s after %llu of %zu bytes, %zu bytes out", mt.threads, (unsigned long long)mt.memlimit_threading, drv::retname(M.ret), (unsigned long long)M.total_in, F.bytes.size(), M.out.size());
+				if (M.out != F.plain) { size_t d = 0; while (d < M.out.size() && d < F.plain.size() && M.out[d] == F.plain[d]) ++d; violation("C03:different-bytes", "lzma_stream_decoder_mt decodes the synthesised .xz to %zu bytes, by construction %zu, first difference at %zu", M.out.size(), F.plain.size(), d); }
+			}
+			count("threaded_decoder_on_synthesised_stream");
+		} else { lzma_end(&m); if (mr != LZMA_MEM_ERROR) harness_bug("mt decoder init"); }
+	}
 	for (auto &kv : F.feat) count("feat_" + kv.first, 1);
 	// optional export of small synthesised files as seed cases for the C04 target (8 parameter bytes + file), see corpus/C04/syn-*
 	if (const char *ex = getenv("VERIF_C03_EXPORT")) { if ((F.bytes.size() < 6000 || (F.bytes.size() < 70000 && F.feat.count("match_at_buffer_write_position") && getenv("VERIF_C03_EXPORT_BIG"))) && (F.feat.count("match_at_buffer_write_position") || F.feat.count("output_longer_than_dictionary") || F.feat.count("four_filters"))) {
@@ -263,7 +280,9 @@ static void mode_raw(Case &c) {
 		f[0].id = LZMA_FILTER_LZMA1EXT; o.ext_size_low = (uint32_t)plain.size(); o.ext_size_high = 0; o.ext_flags = c.flag() ? LZMA_LZMA1EXT_ALLOW_EOPM : 0;
 		++feat[adv.e_cost >= 15 ? "symbol_costing_15_or_more_input_bytes" : "symbol_costing_10_to_14_input_bytes"];
 	} else {
-		unsigned lc, lp, pb; draw_props(c, lc, lp, pb); uint32_t dict = 4096u << c.u(4); o.dict_size = dict; o.lc = lc; o.lp = lp; o.pb = pb;
+		unsigned lc, lp, pb; draw_props(c, lc, lp, pb); uint32_t dict = 4096u << c.u(4);
+		if (c.rare(70)) { dict = 4097 + c.u16() % 12000; count("feat_lzma1_dictionary_size_not_a_multiple_of_16"); }   // LZMA1 allows any size; liblzma rounds up to 16 (lp/pb use the low bits of the position)
+		o.dict_size = dict; o.lc = lc; o.lp = lp; o.pb = pb;
 		std::vector<uint8_t> win; if (!pd.empty()) { size_t k = std::min<size_t>(pd.size(), ref::effective_dict(dict)); win.assign(pd.end() - k, pd.end()); } size_t base = win.size();
 		ref::LzmaSyn z; z.start(lc, lp, pb); SymGen G{c, z, win, ref::effective_dict(dict)}; unsigned nsym = c.rare(40) ? c.u16() % 4000 : c.u(80);
 		for (unsigned i = 0; i < nsym; ++i) G.step(); feat = G.feat;
